@@ -112,6 +112,110 @@ Example C04_premises_satisfiable :
   snd (step ex_cfg ex_ix (OUpdate [97] (ex_client 7 [97] [] [] [([10;0;0;0], 8); ([10;2;0;0], 8)] [] false false))) = EOk.
 Proof. exact example_registry. Qed.
 
+(** * CIDR identifiers spelled with host bits (192.168.1.1/24 next to 192.168.1.0/24)
+
+    No theorem of this file assumes canonical prefixes: a prefix is the exact
+    pair (address as spelled, bits), which is what netip.ParsePrefix /
+    Persistent.SetIDs hand to the index, what its clash test compares and what
+    [subnet_compare] orders; only the containment test masks. *)
+
+(** The containment test does not see the host bits of the prefix. *)
+Theorem C04_contains_masks : forall p q ip,
+  (same_network p q -> contains p ip = contains q ip) /\ contains (masked p) ip = contains p ip.
+Proof. exact (fun p q ip => conj (contains_same_network p q ip) (contains_masked p ip)). Qed.
+Print Assumptions C04_contains_masks.
+
+(** Under the invariant (any host bits): a stored prefix containing the
+    address always answers when nobody owns the address itself; the answer is
+    the owner of the containing prefix FIRST in (bits descending, unmasked
+    address ascending) order, which is at least as long as every stored
+    containing prefix ("the longest containing prefix" alone is not unique
+    when several spellings of one network are stored). *)
+Theorem C04_stored_cidr_resolves : forall ix a p u,
+  Inv ix -> owner_of ix c_subnets p u -> contains p (fst a) = true -> zget a (ip_to ix) = None ->
+  exists p' u', find_by_ip ix a = Some u' /\ owner_of ix c_subnets p' u' /\
+    contains p' (fst a) = true /\ snd p <= snd p' /\
+    (forall q v, owner_of ix c_subnets q v -> contains q (fst a) = true ->
+       snd q <= snd p' /\ (q = p' \/ subnet_compare p' q = Lt)).
+Proof. exact cidr_resolves. Qed.
+Print Assumptions C04_stored_cidr_resolves.
+
+(** An operation on the client called [n] (or an add) leaves every other
+    client's record, hence every identifier it owns, in place. *)
+Theorem C04_other_clients_untouched : forall cfg ix o ix' e u c,
+  Inv ix -> step cfg ix o = (ix', e) -> deref ix u = Some c ->
+  match o with
+  | OAdd _ => True
+  | OUpdate n _ | ORemove n => find_by_name ix n <> Some u
+  end ->
+  deref ix' u = Some c.
+Proof. exact step_keeps_other_clients. Qed.
+Print Assumptions C04_other_clients_untouched.
+
+(** Removing a client does not change the answer for an address that resolved
+    to another client. *)
+Theorem C04_remove_keeps_resolution : forall ix c u0 a u,
+  Inv ix -> deref ix u0 = Some c -> find_by_ip ix a = Some u -> u <> u0 ->
+  find_by_ip (index_remove c ix) a = Some u.
+Proof. exact remove_keeps_others. Qed.
+Print Assumptions C04_remove_keeps_resolution.
+
+(** After ANY history and then a remove / update of the client called [n], a
+    prefix [p] with ANY host bits listed by another client is still owned by
+    that client and every address inside it which nobody owns exactly still
+    resolves, to the owner of the first containing prefix in subnet order. *)
+Theorem C04_noncanonical_prefixes : forall cfg ops o n p u a,
+  let ix := run cfg ops empty_index in
+  let ix' := fst (step cfg ix o) in
+  op_on_client o n -> owner_of ix c_subnets p u -> find_by_name ix n <> Some u ->
+  contains p (fst a) = true -> zget a (ip_to ix') = None ->
+  owner_of ix' c_subnets p u /\
+  exists p' u', find_by_ip ix' a = Some u' /\ owner_of ix' c_subnets p' u' /\
+    contains p' (fst a) = true /\ snd p <= snd p' /\
+    (forall q v, owner_of ix' c_subnets q v -> contains q (fst a) = true ->
+       snd q <= snd p' /\ (q = p' \/ subnet_compare p' q = Lt)).
+Proof. exact noncanonical_prefixes. Qed.
+Print Assumptions C04_noncanonical_prefixes.
+
+(** The premises are satisfiable, by the very scenario: a owns 192.168.1.1/24,
+    b owns 192.168.1.0/24 (accepted; the same spelling again is refused);
+    192.168.1.77 resolves to b, after b is removed / updated away to a, after
+    a is removed / renamed to b. *)
+Example C04_noncanonical_example :
+  Inv nc_ix /\ same_network p_1_1 p_1_0 /\ p_1_1 <> p_1_0 /\ masked p_1_1 = p_1_0 /\
+  owner_of nc_ix c_subnets p_1_1 1 /\ owner_of nc_ix c_subnets p_1_0 2 /\
+  map fst (subnet_to nc_ix) = [p_1_0; p_1_1] /\
+  snd (step ex_cfg nc_ix (OAdd (nc_client 3 [99] [p_1_1]))) = ESubnet /\
+  snd (step ex_cfg nc_ix (OAdd (nc_client 3 [99] [p_1_200]))) = EOk /\
+  find_by_ip nc_ix a77 = Some 2 /\
+  find_by_ip (fst (step ex_cfg nc_ix (ORemove [98]))) a77 = Some 1 /\
+  find_by_ip (fst (step ex_cfg nc_ix (ORemove [97]))) a77 = Some 2 /\
+  find_by_ip (fst (step ex_cfg nc_ix (OUpdate [98] (nc_client 9 [98] [([10;0;0;0], 8)])))) a77 = Some 1 /\
+  find_by_ip (fst (step ex_cfg nc_ix (OUpdate [98] (nc_client 9 [98] [p_1_200])))) a77 = Some 1 /\
+  find_by_ip (fst (step ex_cfg nc_ix (OUpdate [97] (nc_client 9 [100] [p_1_1])))) a77 = Some 2 /\
+  zget a77 (ip_to (fst (step ex_cfg nc_ix (ORemove [98])))) = None.
+Proof. exact example_noncanonical. Qed.
+
+(** The other reading of "identifier".  If a CIDR identifier is read as the
+    NETWORK it denotes, "no two clients share an identifier" would say that two
+    stored clients never hold prefixes of one network.  The registry as it is
+    (exact-prefix clash test) does not guarantee this; witness: the two adds
+    above.  For canonical prefixes the readings coincide. *)
+Theorem C04_networks_disjoint_refuted : ~ networks_disjoint_statement.
+Proof. exact networks_disjoint_refuted. Qed.
+Print Assumptions C04_networks_disjoint_refuted.
+
+Theorem C04_canonical_networks_disjoint : forall ix p1 p2 u1 u2,
+  Inv ix -> canonical p1 -> canonical p2 ->
+  owner_of ix c_subnets p1 u1 -> owner_of ix c_subnets p2 u2 -> same_network p1 p2 -> u1 = u2.
+Proof. exact canonical_networks_disjoint. Qed.
+Print Assumptions C04_canonical_networks_disjoint.
+
+Example C04_canonical_example :
+  canonical p_1_0 /\ ~ canonical p_1_1 /\
+  owner_of (run ex_cfg [OAdd (nc_client 1 [97] [p_1_0])] empty_index) c_subnets p_1_0 1.
+Proof. exact example_canonical. Qed.
+
 (** * Acceptance of add / update: [Persistent.validate] with tags and upstreams *)
 
 (** An accepted record has a name, an identifier, a uid, only allowed tags,
